@@ -2430,7 +2430,8 @@ for _ in range(n):
             el.append(rnd.choice([key, key.upper(), key.capitalize()]) + '=' + val)
         elements.append(';'.join(el))
         want.append((rec['for'], rec['by'], rec['host'], rec['proto']))
-    value = rnd.choice([', ', ',']).join(elements)
+    # list separator: "," with optional whitespace after it, OWS = *( SP / HTAB ) (RFC 9110 5.6.1)
+    value = elements[0] + ''.join(rnd.choice([', ', ',', ',\t', ', \t', ',  ']) + e for e in elements[1:])
     remote = '10.9.8.7'
     for kind, req in [('wsgi', falcon.Request(testing.create_environ(headers={'Forwarded': value}, remote_addr=remote))),
                       ('asgi', falcon.asgi.Request(testing.create_scope(headers={'Forwarded': value}, remote_addr=remote), None))]:
